@@ -217,6 +217,11 @@ func jobC07(c *rt.Ctx) {
 		if (pv != nil) != wantRefuse || (!wantRefuse && !ok) {
 			fail("VerifyWithOptions")
 		}
+		if wantRefuse {
+			// a signature that satisfies the ph equation over the wrong-length "digest" (model-made; the
+			// library's signer refuses to make it): the length rule alone must keep it out
+			vsig = ref.Sign(seedOf(60), d, ref.Ph, []byte("x"))
+		}
 		for _, pos := range []int{0, 4} {
 			msgs := [][]byte{digest, digest, digest, digest, digest}
 			sigs := [][]byte{good, good, good, good, good}
